@@ -507,6 +507,44 @@ def disk_path(case_dir: Path, key: str) -> Path:
     return Path(key) if os.path.isabs(key) else case_dir / key
 
 
+DECOY_LINES = ["decoy==9.9", "--find-links ./decoy_links", "--extra-index-url https://decoy.example/simple"]
+
+
+def decoy_paths(items: List[Dict[str, Any]], root_key: str, case_dir: Path) -> List[str]:
+    """Files of the same relative name as each include, but below the process working directory (= case_dir)
+    instead of the including file's directory.  The code must never read them: an include is relative to the
+    file that names it.  Names that coincide with a real file of the tree are left out."""
+    files: Dict[str, Optional[List[Dict[str, Any]]]] = {}
+    plan_files(items, root_key, files)
+    real = {os.path.normpath(str(disk_path(case_dir, k))) for k in files}
+    out: List[str] = []
+
+    def walk(its, key):
+        for it in its:
+            if it["k"] != "N":
+                continue
+            written = it["path"].strip()
+            if written and not os.path.isabs(written):
+                d = os.path.normpath(os.path.join(str(case_dir), written))
+                if d not in real and d not in out and d.startswith(str(case_dir.parents[4])):
+                    out.append(d)
+            if it["sub"]:
+                walk(it["sub"], os.path.join(os.path.dirname(key) or ".", written))
+    walk(items, root_key)
+    return out
+
+
+def write_decoys(paths: List[str]) -> None:
+    for d in paths:
+        try:
+            os.makedirs(os.path.dirname(d), exist_ok=True)
+            if not os.path.exists(d):
+                with open(d, "w", encoding="utf-8") as fh:
+                    fh.write("".join(l + "\n" for l in DECOY_LINES))
+        except OSError:
+            pass
+
+
 def write_case(case_dir: Path, file_lines: Dict[str, Optional[List[str]]], eol: str = "\n") -> None:
     for key, lines in file_lines.items():
         p = disk_path(case_dir, key)
@@ -623,6 +661,7 @@ def run_file_cases(ctx: Ctx, cases: List[Dict[str, Any]]) -> None:
         case_dir: Path = c["dir"]
         case_dir.mkdir(parents=True, exist_ok=True)
         write_case(case_dir, c["files"], c.get("eol", "\n"))
+        write_decoys(c.get("decoys", []))
         fed = read_back(case_dir, c["files"])
         c["fed"] = fed
         cwd = os.getcwd()
@@ -780,7 +819,8 @@ def _correspondence(ctx: Ctx) -> None:
         if meaning[ti] is not None and any(v is None for v in files.values()):
             meaning[ti]["conv"] = False          # `holds` fails: an included file is missing
         own = rng.random() < 0.35
-        cases.append({"bi": tuple(rng.sample(OWN_URLS, rng.choice([1, 2]))) if own else (),
+        cases.append({"decoys": decoy_paths(items, root_key, case_dir) if rng.random() < 0.7 else [],
+                      "bi": tuple(rng.sample(OWN_URLS, rng.choice([1, 2]))) if own else (),
                       "be": tuple(rng.sample(OWN_URLS, rng.choice([0, 1]))) if own else (),
                       "bf": tuple(rng.sample(OWN_LINKS, rng.choice([0, 1, 2]))) if own else (),
                       "bno": own and rng.random() < 0.2,
@@ -928,7 +968,7 @@ def _correspondence(ctx: Ctx) -> None:
         items = _search_items(rng, rng.choice([3, 6, 12]))
         if rng.random() < 0.6:
             _plain_directives(rng, items)
-        why = oracle_tree(ctx, items, "c%d" % oi)
+        why = oracle_tree(ctx, items, "c%d" % oi, rng.choice(ROOT_MODES))
         ctx.case(key=("oracle", json.dumps(items, sort_keys=True, default=str)), nontrivial=True)
         ctx.count("kind:statement-oracle")
         if why:
@@ -1081,15 +1121,33 @@ def py_meaning(items: List[Dict[str, Any]]) -> Tuple[List[List[str]], List[str]]
     return reqs, opts
 
 
-def oracle_tree(ctx: Ctx, items: List[Dict[str, Any]], tag: str) -> Optional[str]:
-    """Conventional tree -> None if the real code reads it with pip's meaning and both front-ends agree on
-    the unquoted, unindented long-form index directives of the root file; else a reason."""
-    U = _impl()["U"]
+ROOT_MODES = ["abs", "rel", "reldir"]
+
+
+def oracle_tree(ctx: Ctx, items: List[Dict[str, Any]], tag: str, mode: Optional[str] = None) -> Optional[str]:
+    """Conventional tree -> None if the real code reads it with pip's meaning (nested includes relative to the
+    including file, whatever the working directory holds) and both front-ends agree on the long-form directives
+    of the root file; else a reason.  The process works in the case directory; the top file is named absolutely,
+    relatively, or from a sub-directory; decoy files of every include's relative name lie below the cwd."""
+    if mode is None:
+        mode = ROOT_MODES[len(json.dumps(items, default=str)) % 3]
     case_dir = ctx.tmpdir() / ("o_" + tag) / "l1" / "l2" / "l3" / "l4" / "l5"
+    case_dir.mkdir(parents=True, exist_ok=True)
+    cwd = os.getcwd()
+    os.chdir(case_dir)
+    try:
+        return _oracle_tree(ctx, items, case_dir, mode)
+    finally:
+        os.chdir(cwd)
+
+
+def _oracle_tree(ctx: Ctx, items: List[Dict[str, Any]], case_dir: Path, mode: str) -> Optional[str]:
+    U = _impl()["U"]
     files: Dict[str, Optional[List[Dict[str, Any]]]] = {}
-    root = str(case_dir / "reqs.in")
+    root = {"abs": str(case_dir / "reqs.in"), "rel": "reqs.in", "reldir": "top/reqs.in"}[mode]
     plan_files(items, root, files)
     write_case(case_dir, {k: (py_render(v) if v is not None else None) for k, v in files.items()})
+    write_decoys(decoy_paths(items, root, case_dir))
     im = impl_read(root)
     reqs, opts = py_meaning(items)
     want = [str(U.parse_requirement(" ".join(t))) for t in reqs]
@@ -1123,7 +1181,7 @@ def oracle_tree(ctx: Ctx, items: List[Dict[str, Any]], tag: str) -> Optional[str
             return f"declared index urls are not honoured by the command line: {c[1]}"
         if {u.rstrip("/") for k, u in decl if k == "extra"} != {u.rstrip("/") for u in c[2]}:
             return f"declared extra index urls are not honoured by the command line: {c[2]}"
-        want_links = sorted({os.path.normpath(os.path.join(os.path.dirname(root), u)) for k, u in decl if k == "find"})
+        want_links = sorted({os.path.normpath(os.path.join(os.path.dirname(root) or ".", u)) for k, u in decl if k == "find"})
         if sorted(b[3]) != want_links:
             return f"Bazel front-end find-links {sorted(b[3])} differ from the declared {want_links}"
         if not CLI_IGNORES_FIND_LINKS and set(c[3]) != {u for k, u in decl if k == "find"}:
@@ -1133,6 +1191,20 @@ def oracle_tree(ctx: Ctx, items: List[Dict[str, Any]], tag: str) -> Optional[str
 
 # C16-cli-ignores-find-links is repaired: the command line's find-links are compared with the declared ones
 CLI_IGNORES_FIND_LINKS = False
+
+
+def describe_tree(items: List[Dict[str, Any]], mode: str) -> Dict[str, Any]:
+    """the files of the failing tree relative to the working directory: real ones with their lines, decoys marked"""
+    base = Path("/CWD/l1/l2/l3/l4/l5")
+    root = {"abs": str(base / "reqs.in"), "rel": "reqs.in", "reldir": "top/reqs.in"}[mode]
+    files: Dict[str, Optional[List[Dict[str, Any]]]] = {}
+    plan_files(items, root, files)
+    out: Dict[str, Any] = {}
+    for k, v in files.items():
+        out[os.path.relpath(os.path.normpath(str(disk_path(base, k))), str(base))] = py_render(v) if v is not None else None
+    for d in decoy_paths(items, root, base):
+        out["DECOY " + os.path.relpath(d, str(base))] = DECOY_LINES
+    return out
 
 
 def _search_items(rng, k: int) -> List[Dict[str, Any]]:
@@ -1173,12 +1245,15 @@ def search(ctx: Ctx) -> Optional[Dict[str, Any]]:
             if rng.random() < 0.5:
                 _plain_directives(rng, items)
             n += 1
+            mode = rng.choice(ROOT_MODES)
             try:
-                why = oracle_tree(ctx, items, str(n))
+                why = oracle_tree(ctx, items, str(n), mode)
             except Exception as ex:  # noqa
                 why = None
             if why:
-                return {"input": items, "why": why, "lines": py_render(items)}
+                return {"input": items, "why": why, "lines": py_render(items), "root_named": mode,
+                        "cwd": "the directory of reqs.in" if mode != "reldir" else "the parent of top/ (the file is named top/reqs.in)",
+                        "files": describe_tree(items, mode)}
     return None
 
 
@@ -1199,7 +1274,7 @@ def replay(ctx: Ctx, payload: Dict[str, Any]) -> bool:
     items = fix(fi["input"])
     for i in items:
         _retuple(i)
-    return oracle_tree(ctx, items, "replay") is not None
+    return oracle_tree(ctx, items, "replay", fi.get("root_named")) is not None
 
 
 def _retuple(i: Dict[str, Any]) -> None:
